@@ -41,6 +41,15 @@ COMPOSITION = [
     'clear/update), whose behaviour is the subject of C19']
 
 
+def build_prep(tag):
+    from pyvc import verify
+    from contracts import writer as W
+    W.INDENT_VALID = True
+    eng = verify.Engine()
+    W.register(eng, tag, own_prepare=True)
+    return eng
+
+
 def main():
     chk = Check('C05')
     if chk.replay_file:
@@ -49,6 +58,11 @@ def main():
     dom_common.describe_functions(chk, WRITER_FUNCS + READER_FUNCS)
     dom_common.run_scenarios(chk, DS.c05_scenarios(chk.tier)
                              + DS.c06_scenarios(chk.tier))
+    # a tree only serialises with an indentation the reader accepts
+    from contracts import writer as W
+    chk.verify_parallel(build_prep, [(W.QN + '_prepare_content', p)
+                                     for p in ('diffx', '.change')],
+                        timeout_s=30, procs=8)
     chk.trusted += COMPOSITION
     state = {}
 
